@@ -7,7 +7,7 @@ import (
 // Verif_C11_alloc: from an arbitrary allocator state (32-bit counter, wrap-around included) three consecutive
 // allocations of arbitrary sizes hand out pairwise disjoint identifier ranges (base, base+maxTTL] modulo 2^16.
 func Verif_C11_alloc() {
-	curPacketID.Store(V.U32("counter"))
+	RandomizePacketIDBase() // arbitrary allocator state through the package's own setter (its rand.Uint32 draw is symbolic)
 	m1, m2, m3 := V.U8("m1"), V.U8("m2"), V.U8("m3")
 	b1 := AllocPacketID(m1)
 	b2 := AllocPacketID(m2)
@@ -23,7 +23,7 @@ func Verif_C11_alloc() {
 
 // Verif_C14_alloc: two goroutines allocating identifier ranges at once: no race, ranges disjoint.
 func Verif_C14_alloc() {
-	curPacketID.Store(V.U32("counter"))
+	RandomizePacketIDBase()
 	done := make(chan uint16, 2)
 	go func() { done <- AllocPacketID(30) }()
 	go func() { done <- AllocPacketID(30) }()
